@@ -1,14 +1,18 @@
 """C08 -- the hyper-optimizer returns its best trial and reports that trial's true costs.
 
-Three ties of the Lean model (Model/Hyper.lean, Model/HyperTrial.lean) to /repo, on every run:
+Three ties of the Lean models (Model/Hyper.lean, Model/HyperTrial.lean and the extended transcription
+Model/HyperX.lean: NaN / -inf scores, raising workers, clean-up of in-flight futures, times, get_trials())
+to /repo, on every run:
 
   A  scripted searches: the real `HyperOptimizer` with a harness-registered optlib (scripted
      settings) and path function (scripted scores / BadTrial / exceptions / delays), run serially,
      on a *scripted executor* that forces a chosen completion order, on a real thread pool and on
      a real process pool; one to three consecutive searches on the same object; every stop rule.
      The observed completion order (and, for wall-clock rules, the observed stop decisions) is fed
-     to the driver op `c08.search`; lists, best record, optlib reports, cancelled futures and the
-     number of submissions must coincide (E).
+     to the driver ops `c08.xsearch` (always) and `c08.search` (cases the earlier model covers); lists,
+     best record, cancelled / finished-and-dropped / left-behind futures, whether the search was left by
+     an exception and the number of submissions must coincide (E); `c08.xprefixes`: the best score seen by
+     the sampler after every assessed trial is that of the model run over the same prefix of the log.
   B  worker stack: the real trial function built by `HyperOptimizer.setup` (wrappers +
      `ComputeScore` + real objectives) on a table-driven mock tree versus `c08.worker` (E).
   F  source-derived facts (AST of scoring.py / hyper.py): which objectives fill flops/write/size,
@@ -136,7 +140,7 @@ THEOREMS = [
 ]
 TRUSTED = [
     "Lean 4.33 kernel; axioms ⊆ {propext, Classical.choice, Quot.sound}",
-    "hand-written models Model/Hyper.lean, Model/HyperTrial.lean of hyper.py:175-340, 525-735 and "
+    "hand-written models Model/Hyper.lean, Model/HyperTrial.lean, Model/HyperX.lean of hyper.py:175-342, 527-793 and "
     "scoring.py:38-47, tied by the correspondences of this check on the generated cases only",
     "the AST fact extractor in harness/c08.py (gen_facts) -- validated dynamically by tie B",
     "harness canonicalisation: float scores -> dense ranks (justified by C08.best_map_mono), inf -> null",
